@@ -1,8 +1,9 @@
 (* Correspondence suites for C09: suite name -> arguments -> observation text.
    StripRaw is instantiated by the identity: the suites only log text without IRC
    format codes.  pretty_rest is instantiated for source-less events (the only ones the
-   suites hand to the loggers): "[>] writing <line>" for PRIVMSG/NOTICE with parameters. *)
-Require Import Bytes Utf8 Base64 Sasl.
+   suites hand to the loggers): "[>] writing <line>" for PRIVMSG/NOTICE with parameters.
+   CAP REQ lists its tokens in sorted order (the harness sorts them too: Go's map order). *)
+Require Import Bytes Utf8 Base64 CapLib Sasl.
 
 Definition a9 (n : nat) (args : list str) : str := nth n args [].
 
@@ -77,7 +78,7 @@ Definition log_flag (e : event) : N :=
 
 Definition session_obs (args : list str) : str :=
   let cf k := mkCfg (mech_at (a9 0 args) (a9 1 args) (a9 2 args) k) (a9 3 args)
-                    (mkWebirc (a9 4 args) t_gw t_host t_addr) true t_me t_user t_realname in
+                    (mkWebirc (a9 4 args) t_gw t_host t_addr) true t_me t_user t_realname sort_strs in
   let reg := registration_writes (cf 0%nat) in
   match session_steps cf 0%nat (a9 5 args) (a9 6 args) conn_init (skipn 7 args) with
   | Panic => t_PANIC
